@@ -243,8 +243,6 @@ def run_case(case, ctx, st):
     params["learning_rate"] = float(10 ** rng.uniform(-2, -0.3))
     if wide and "n_hidden_dim" in params:
         params["n_hidden_dim"] = int(rng.integers(6, 25))
-    if wide and isinstance(params.get("gemini"), (str, dict)) and "wasserstein" in str(params.get("gemini")).lower() and n > 24:
-        params["batch_size"] = 12
     if name not in gen.NONPARAMETRIC:
         params["batch_size"] = [1, 2, -(-n // 3), n, None, n + 3][int(rng.integers(0, 6))]
     if name in gen.SPARSE:
